@@ -45,16 +45,19 @@ structure Wk (τ : Type) where
   sub : Nat := 0                    -- progress inside one protocol call (0: before logstart, 1: before the reports, 2: before the completion)
   cbSet : Bool := false             -- `channel.setcallback(handle_command)` done (`pytest_runtestloop` entered)
   inbox : List Cmd := []
-  outbox : List (WMsg τ) := []
+  outbox : List (WMsg τ) := []          -- sent by the worker, not yet seen by its receiver thread
+  posted : List (Ctl.Event τ) := []     -- put on the controller's queue by the receiver thread, not yet handled
   exitstatus : Nat := 0
   sf : Option String := none        -- `session.shouldfail`
   ss : Option String := none        -- `session.shouldstop`
   deriving Repr
 
+/-- The controller's event queue is kept per worker (`posted`): the queue is FIFO, so events of one worker are handled in
+    the order its receiver thread posted them; between workers the model allows any order, which covers every order the
+    single queue can produce (the receiver threads race for it). -/
 structure State (σ τ : Type) where
   ctl : Ctl.State σ τ
   wk : List (Wk τ)                  -- position = worker number (gw<k>)
-  cq : List (Ctl.Event τ) := []     -- the controller's event queue
 
 /-- what the environment decides in a main-thread step -/
 inductive MainP where
@@ -69,7 +72,7 @@ inductive Step where
   | deliver (k : Nat)
   | recv (k : Nat)
   | crash (k : Nat) (broken : Bool)
-  | ctl (requeue : Bool)
+  | ctl (k : Nat) (requeue : Bool)        -- the controller handles the oldest posted event of worker `k`
   deriving Repr
 
 inductive Err where
@@ -186,9 +189,9 @@ def recvStep (st : State σ τ) (k : Nat) : Option (State σ τ) :=
                                broken := match m with | .endMarker => false | _ => fl.broken }
       let outs' := if r.2.2 && !fl.broken then st.ctl.env.outs ++ [SOut.shutdown k] else st.ctl.env.outs
       let env' : Env := { flags := AList.set st.ctl.env.flags k fl', outs := outs' }
-      let wk1 := st.wk.set k { w with outbox := rest }
+      let wk1 := st.wk.set k { w with outbox := rest, posted := w.posted ++ r.2.1.map (ofPost k) }
       let wk2 := if r.2.2 && !fl.broken then route wk1 [SOut.shutdown k] else wk1
-      some { st with ctl := { st.ctl with env := env' }, wk := wk2, cq := st.cq ++ r.2.1.map (ofPost k) }
+      some { st with ctl := { st.ctl with env := env' }, wk := wk2 }
 
 def crashStep (st : State σ τ) (k : Nat) (broken : Bool) : Option (State σ τ) :=
   match st.wk[k]? with
@@ -206,19 +209,22 @@ def crashStep (st : State σ τ) (k : Nat) (broken : Bool) : Option (State σ τ
 def spawn (idsOf : Nat → List τ) (wk : List (Wk τ)) (upTo : Nat) : List (Wk τ) :=
   wk ++ ((List.range (upTo - wk.length)).map fun j => ({ ids := idsOf (wk.length + j) } : Wk τ))
 
-/-- one iteration of the controller loop on the next queued event -/
-def ctlStep (I : SchedI σ τ) (idsOf : Nat → List τ) (st : State σ τ) (requeue : Bool) : Except Err (State σ τ) :=
+/-- one iteration of the controller loop on the oldest posted event of worker `k` -/
+def ctlStep (I : SchedI σ τ) (idsOf : Nat → List τ) (st : State σ τ) (k : Nat) (requeue : Bool) : Except Err (State σ τ) :=
   if Ctl.sessionFinished st.ctl then .error .notEnabled
   else if st.ctl.active.isEmpty then .error (.py .runtime)
-  else match st.cq with
-  | [] => .error .notEnabled
-  | ev :: rest =>
-    let ev' := match ev with | .errordown n _ => Ctl.Event.errordown n requeue | e => e
-    match Ctl.loopOnce I st.ctl ev' with
-    | .error e => .error (.py e)
-    | .ok c' =>
-      let newOuts := c'.env.outs.drop st.ctl.env.outs.length
-      .ok { ctl := c', wk := route (spawn idsOf st.wk c'.nextId) newOuts, cq := rest }
+  else match st.wk[k]? with
+  | none => .error .notEnabled
+  | some w =>
+    match w.posted with
+    | [] => .error .notEnabled
+    | ev :: rest =>
+      let ev' := match ev with | .errordown n _ => Ctl.Event.errordown n requeue | e => e
+      match Ctl.loopOnce I st.ctl ev' with
+      | .error e => .error (.py e)
+      | .ok c' =>
+        let newOuts := c'.env.outs.drop st.ctl.env.outs.length
+        .ok { ctl := c', wk := route (spawn idsOf (st.wk.set k { w with posted := rest }) c'.nextId) newOuts }
 
 def step (I : SchedI σ τ) (idsOf : Nat → List τ) (st : State σ τ) : Step → Except Err (State σ τ)
   | .main k p =>
@@ -235,7 +241,7 @@ def step (I : SchedI σ τ) (idsOf : Nat → List τ) (st : State σ τ) : Step 
       | some w' => .ok (setWk st k w')
   | .recv k => match recvStep st k with | none => .error .notEnabled | some s => .ok s
   | .crash k b => match crashStep st k b with | none => .error .notEnabled | some s => .ok s
-  | .ctl rq => ctlStep I idsOf st rq
+  | .ctl k rq => ctlStep I idsOf st k rq
 
 def run (I : SchedI σ τ) (idsOf : Nat → List τ) (st : State σ τ) : List Step → Except Err (State σ τ)
   | [] => .ok st
